@@ -152,6 +152,16 @@ func (q *slowQ) Pop() (quartz.ScheduledJob, error) {
 	return j, err
 }
 
+// firingTrigger: a short interval and a NextFireTime that takes a little while: the jobs the clients operate on are themselves being
+// fired ("with the scheduler firing jobs at the same time"), so the loop's pop / ask-the-trigger / push step overlaps the calls.
+type firingTrigger struct{}
+
+func (firingTrigger) NextFireTime(prev int64) (int64, error) {
+	spin(30 * time.Microsecond)
+	return prev + int64(40*time.Microsecond), nil
+}
+func (firingTrigger) Description() string { return "firing" }
+
 func linRun(args []string) int {
 	fs := flag.NewFlagSet("lin", flag.ExitOnError)
 	seed := fs.Int64("seed", 1, "")
@@ -200,6 +210,11 @@ func linRun(args []string) int {
 				plan[c] = append(plan[c], &linOp{client: c, kind: kind, key: r.Intn(2), susp: r.Intn(4) == 0, repl: r.Intn(3) == 0})
 			}
 		}
+		var trig quartz.Trigger = quartz.NewSimpleTrigger(time.Hour)
+		if h%2 == 1 || h%8 == 0 {
+			trig = firingTrigger{}
+			qkind += "+firing"
+		}
 		shared := make([]*quartz.JobDetail, len(keys))
 		for i, k := range keys {
 			so := quartz.NewDefaultJobDetailOptions()
@@ -222,9 +237,9 @@ func linRun(args []string) int {
 					case "schedule":
 						jo := quartz.NewDefaultJobDetailOptions()
 						jo.Suspended, jo.Replace = o.susp, o.repl
-						err = s.ScheduleJob(quartz.NewJobDetailWithOptions(&tagJob{tag: 1}, k, jo), quartz.NewSimpleTrigger(time.Hour))
+						err = s.ScheduleJob(quartz.NewJobDetailWithOptions(&tagJob{tag: 1}, k, jo), trig)
 					case "reschedule":
-						err = s.ScheduleJob(shared[o.key], quartz.NewSimpleTrigger(time.Hour))
+						err = s.ScheduleJob(shared[o.key], trig)
 					case "delete":
 						err = s.DeleteJob(k)
 					case "pause":
@@ -232,10 +247,23 @@ func linRun(args []string) int {
 					case "resume":
 						err = s.ResumeJob(k)
 					case "get":
-						var sj quartz.ScheduledJob
-						sj, err = s.GetScheduledJob(k)
-						if err == nil {
-							o.res = "ok " + b01(sj.JobDetail().Options().Suspended) + " " + b01(sj.NextRunTime() == math.MaxInt64)
+						// the entry's priority is a snapshot, but (default queue) its job detail is the live object: a flag read after
+						// the call returned may belong to a later pause/resume. Such a torn reading is the harness's, not an answer of
+						// the call: ask again (still inside this operation's interval); a persistent disagreement is reported as is.
+						for try := 0; try < 6; try++ {
+							var sj quartz.ScheduledJob
+							sj, err = s.GetScheduledJob(k)
+							o.res = ""
+							if err != nil {
+								break
+							}
+							parked := sj.NextRunTime() == math.MaxInt64
+							susp := sj.JobDetail().Options().Suspended
+							o.res = "ok " + b01(susp) + " " + b01(parked)
+							if susp == parked {
+								break
+							}
+							time.Sleep(200 * time.Microsecond)
 						}
 					}
 					o.ret = int64(time.Since(base))
